@@ -49,6 +49,7 @@ import binascii
 import os
 import re
 import subprocess
+import time
 
 import vlib
 from props import c06
@@ -1236,12 +1237,15 @@ def scale_pass(ctx, rng, quick, hbin, scratch, report):
                 cur += c
         return max(best, cur)
 
+    # Queue::push() waits for room in a bounded queue by polling every 10 ms: a scenario that DELIVERS thousands of
+    # buffers through an osmdata queue bounded by 1 or 2 takes 5 ms per buffer.  The first two environments of every
+    # group of four leave the osmdata queue at its default; scenarios delivering more than 1000 objects run there.
     envs = []
     for i in range(4 if quick else 8):
         e = {'OSMIUM_POOL_THREADS': rng.choice(['1', '2', '3', '8'])}
         for k in ('INPUT', 'OSMDATA', 'WORK'):
             v = rng.choice(['1', '2', None, None])
-            if v:
+            if v and not (k == 'OSMDATA' and i % 4 < 2):
                 e['OSMIUM_MAX_%s_QUEUE_SIZE' % k] = v
         if i % 2:
             e['OSMIUM_USE_POOL_THREADS_FOR_PBF_PARSING'] = rng.choice(['off', 'false', 'no', '0'])
@@ -1250,7 +1254,9 @@ def scale_pass(ctx, rng, quick, hbin, scratch, report):
             e['C05_THREAD_STACK_KB'] = str(ts)
         envs.append(e)
 
-    def add(sc, env_i, **info):
+    def add(sc, env_i, heavy=False, **info):
+        if heavy and env_i % 4 >= 2:
+            env_i -= 2
         scen_info[(env_i, sc)] = info
         per_env[env_i].append(sc)
 
@@ -1271,7 +1277,7 @@ def scale_pass(ctx, rng, quick, hbin, scratch, report):
                           mask=mask | (8 if rng.chance(1, 4) else 0), meta=rng.choice([1, 1, 0]), bt=rng.choice(['any', 'single']), pool=rng.choice([0, 0, 1, 2, 3]),
                           hdr=rng.choice([0, 1, 2]), k=-1, stop=rng.choice(['close', 'dtor']), pl=rng.choice([0, 0, 0, 1]), ps=1 + rng.below(1000000), trace=0,
                           wd=300000, stack=stack, digest=1 if full > 30000 else 0)
-                add(sc, env_i, kind='pbf-blocks', file=name, shape=b['shape'], run=maskrun(b, mask & 7), mask=mask & 7, stack=stack, size=b['blocks'],
+                add(sc, env_i, heavy=full > 1000, kind='pbf-blocks', file=name, shape=b['shape'], run=maskrun(b, mask & 7), mask=mask & 7, stack=stack, size=b['blocks'],
                     family=('pbf', b['shape'], mask & 7))
     # the same at the level of the Reader alone: a parser that queues valid buffers WITHOUT data (what the PBF decoder does
     # for a block without selected objects), and buffers with very deep nesting — the mock parser of the harness
@@ -1292,7 +1298,7 @@ def scale_pass(ctx, rng, quick, hbin, scratch, report):
             stack = rng.choice([128, 256]) if kreads < 0 else 512
             sc = scen(fmt='mock', data='sxml', src='mem', cuts='-', mp='hn%dz%db1e' % (depth, depth), mask=15, meta=1, bt='any', pool=1, hdr=1, k=kreads,
                       stop=stop, pl=0, ps=1, trace=0, wd=120000, stack=stack)
-            add(sc, env_i, kind='mock', shape='nested-depth-%d%s' % (depth, '' if kreads < 0 else '-partial-read'), run=depth, mask=15, stack=stack,
+            add(sc, env_i, heavy=True, kind='mock', shape='nested-depth-%d%s' % (depth, '' if kreads < 0 else '-partial-read'), run=depth, mask=15, stack=stack,
                 nodes=depth + 2, partial=kreads >= 0, family=None)
     # nested-buffer unwinding of REAL decoders: one PBF block of thousands of objects with the hooked 256-byte buffer
     # (get_last_nested chain of depth > 1000), complete and abandoned reads; long runs of unselected OBJECTS in the
@@ -1308,7 +1314,7 @@ def scale_pass(ctx, rng, quick, hbin, scratch, report):
                           meta=rng.choice([1, 0]), bt=rng.choice(['any', 'single']), pool=rng.choice([0, 1, 2]), hdr=rng.choice([0, 1]), k=kreads,
                           stop=rng.choice(['close', 'dtor']), pl=0, ps=1, trace=0, wd=120000, stack=stack)
                 first = next((i for i, d in enumerate(f['ref']) if TYPE_BIT[d[0]] & mask), len(f['ref']))
-                add(sc, env_i, kind='file', file=name, shape='deep-nesting' + ('-partial-read' if kreads >= 0 else '') if name.startswith('sdeep') else 'unselected-objects-first',
+                add(sc, env_i, heavy=True, kind='file', file=name, shape='deep-nesting' + ('-partial-read' if kreads >= 0 else '') if name.startswith('sdeep') else 'unselected-objects-first',
                     run=first, mask=mask, stack=stack, partial=kreads >= 0, family=None)
 
     nrun = 0
@@ -1317,7 +1323,10 @@ def scale_pass(ctx, rng, quick, hbin, scratch, report):
     allfiles = dict(files)
     for env_i, env in enumerate(envs):
         sc = per_env[env_i]
+        t_env = time.time()
         blocks = run_attributed(hbin, scratch, env, defs, sc)
+        if os.environ.get('C05_SCALE_DEBUG'):
+            print('scale env %d [%s]: %d scenarios %.1fs' % (env_i, env_str(env), len(sc), time.time() - t_env), flush=True)
         ctx.count('env:scale:' + env_str(env))
         if len(blocks) < len(sc) and all(b.end == 'ok' for b in blocks) and not ctx.violations:
             ctx.violation('harness-incomplete', 'only %d of %d scale scenarios ran under [%s]' % (len(blocks), len(sc), env_str(env)), {'kind': 'check-error'}, found_input=False)
